@@ -38,6 +38,7 @@ type hcell struct {
 type hgraph struct {
 	cells []hcell
 	root  hv
+	rev   bool // allocate the cells in reverse order (the relative order of addresses must not matter)
 }
 
 func (v hv) coq() string {
@@ -86,7 +87,12 @@ func (g *hgraph) coq() string {
 // build the Go object graph
 func (g *hgraph) build() any {
 	objs := make([]any, len(g.cells))
-	for a, c := range g.cells {
+	for k := range g.cells {
+		a := k
+		if g.rev {
+			a = len(g.cells) - 1 - k
+		}
+		c := g.cells[a]
 		switch c.kind {
 		case "node":
 			objs[a] = &HNode{}
@@ -427,6 +433,20 @@ func famHeap(dir string, seed int64, tier string) {
 		g.cells[last].i = ifaceOf(hv{kind: "ptr", addr: shared})
 		add(g, fmt.Sprintf("diamond below %d pointer levels", d))
 	}
+	// a ladder of diamonds below many levels: every rung is reached twice (through the pointer and through the
+	// interface of the rung above), rungs allocated after (and, in the reversed build, before) their ancestors
+	for _, d := range []int{1, 996, 1000, 1003, 1300} {
+		g := chainGraph("ptr", d, 0)
+		last := len(g.cells) - 1
+		for rung := 0; rung < 6; rung++ {
+			shared := len(g.cells)
+			g.cells = append(g.cells, hcell{kind: "node", p: hv{kind: "nilptr"}, i: ifaceOf(hv{kind: "int"})})
+			g.cells[last].p = hv{kind: "ptr", addr: shared}
+			g.cells[last].i = ifaceOf(hv{kind: "ptr", addr: shared})
+			last = shared
+		}
+		add(g, fmt.Sprintf("ladder of 6 diamonds below %d pointer levels", d))
+	}
 	// a pointer prefix of every small length in front of a pointer/interface cycle (parity of the depth counter)
 	for p := 0; p <= 6; p++ {
 		for _, fl := range []string{"iface", "pany"} {
@@ -517,6 +537,18 @@ func famHeap(dir string, seed int64, tier string) {
 			rep.violate("C18", "acyclic-rejected", fmt.Sprintf("an acyclic value failed to marshal: %v", err), desc)
 		case cyc && !errors.Is(err, sb.MarshalError):
 			rep.violate("C18", "not-a-marshal-error", fmt.Sprintf("%v", err), desc)
+		}
+		// the same graph allocated in the opposite order: whether a shared node lies below or above its
+		// ancestors in memory must not matter (acyclic graphs: DAGs with shared nodes are the interesting ones)
+		if !cyc && err == nil && len(g.cells) >= 2 {
+			g2 := &hgraph{cells: g.cells, root: g.root, rev: true}
+			root2 := g2.build()
+			var e2 error
+			_ = withWatchdog(8*time.Second, &leaked, func() error { _, e2 = marshalTokens(root2, nil); return nil })
+			rep.Evaluations++
+			if e2 != nil {
+				rep.violate("C18", "acyclic-rejected", fmt.Sprintf("an acyclic value failed to marshal when its cells are allocated in reverse order: %v", e2), desc)
+			}
 		}
 		// acyclic values round trip
 		hasIface := strings.Contains(g.coq(), "VIface (Some")
